@@ -165,3 +165,75 @@ theorem resolve_inClass_silent {g : Graph} (hwf : g.wellFormed = true) (hcf : ca
     · exact absurd h (h2 d hm)
 
 end Pxv.CG
+
+namespace Pxv.CG
+open Graph
+
+/-- what the last pass may have added to the call graph `g0`: nodes that may not be cloned themselves, each fed by one
+    shared borrow of a clone-if-necessary node of `g0` and moved into its consumer. -/
+structure OnlyClones (g0 g : Graph) : Prop where
+  size : g0.size ≤ g.size
+  old : ∀ x, x < g0.size → (g.node x).cloneable = (g0.node x).cloneable
+  new : ∀ x, g0.size ≤ x → x < g.size → (g.node x).cloneable = false
+  edges : ∀ e ∈ g.edges, e ∈ g0.edges ∨
+    (e.kind = .shared ∧ e.src < g0.size ∧ (g0.node e.src).cloneable = true ∧ g0.size ≤ e.dst) ∨
+    (e.kind = .move ∧ g0.size ≤ e.src)
+
+theorem onlyClones_refl (g : Graph) : OnlyClones g g :=
+  ⟨Nat.le_refl _, fun _ _ => rfl, fun x h1 h2 => absurd h2 (by omega), fun e he => Or.inl he⟩
+
+theorem onlyClones_insertClone {g0 g : Graph} {b n : Nat} (h : OnlyClones g0 g) (hb : b < g.size)
+    (hc : (g.node b).cloneable = true) : OnlyClones g0 (insertClone g b n).1 := by
+  have hb0 : b < g0.size := by
+    apply Classical.byContradiction
+    intro hnot
+    have := h.new b (by omega) hb
+    rw [hc] at this; cases this
+  have hc0 : (g0.node b).cloneable = true := by rw [← h.old b hb0]; exact hc
+  refine ⟨by rw [size_insertClone]; have := h.size; omega, ?_, ?_, ?_⟩
+  · intro x hx
+    rw [node_insertClone_old g b n x (by have := h.size; omega)]
+    exact h.old x hx
+  · intro x h1 h2
+    rw [size_insertClone] at h2
+    by_cases hx : x = g.size
+    · subst hx; exact node_insertClone_new g b n
+    · rw [node_insertClone_old g b n x (by omega)]
+      exact h.new x h1 (by omega)
+  · intro e he
+    rw [edges_insertClone] at he
+    simp only [List.mem_append, List.mem_filter, List.mem_cons, List.not_mem_nil, or_false] at he
+    rcases he with ⟨he, _⟩ | rfl | rfl
+    · exact h.edges e he
+    · right; left; exact ⟨rfl, hb0, hc0, h.size⟩
+    · right; right; exact ⟨rfl, h.size⟩
+
+/-- **no illicit copies by the last pass**: whatever `resolveStalemates` adds to a call graph is a clone of a
+    clone-if-necessary node, handed to one consumer. -/
+theorem resolveLoop_onlyClones (g0 : Graph) :
+    ∀ (fuel : Nat) (g : Graph) (reported : List Nat) (ds : List OsDiag), g.wellFormed = true → OnlyClones g0 g →
+      OnlyClones g0 (resolveLoop fuel g reported ds).1 := by
+  intro fuel
+  induction fuel with
+  | zero => intro g reported ds _ h; simpa [resolveLoop] using h
+  | succ f ih =>
+    intro g reported ds hwf h
+    simp only [resolveLoop]
+    split
+    · exact h
+    · rename_i n0 bl0 rest hsome
+      split
+      · rename_i n b hfs
+        obtain ⟨s, hs, hf⟩ := List.exists_of_findSome?_eq_some hfs
+        simp only [Option.map_eq_some_iff, Prod.mk.injEq] at hf
+        obtain ⟨b', hfind, rfl, rfl⟩ := hf
+        have hg := findStalemate_genuine (g := g) (ign := reported) (s := s) (by rw [hsome]; exact hs)
+        have hbm : b' ∈ s.2 := List.mem_of_find?_eq_some hfind
+        have hcb : (g.node b').cloneable = true := by simpa using List.find?_some hfind
+        have hpred := (hg.2.2.2 b' hbm).1
+        obtain ⟨e, he, hsrc, _⟩ := mem_preds hpred
+        have hbs : b' < g.size := hsrc ▸ (wf_endpoints hwf he).1
+        exact ih _ reported ds (insertClone_wf hwf hpred) (onlyClones_insertClone h hbs hcb)
+      · exact ih g _ _ hwf h
+
+end Pxv.CG
